@@ -310,6 +310,10 @@ func (u *UnaryExpression) SQL() string {
 	}
 	switch u.Operator {
 	case Not:
+		if _, ok := u.Expr.(*ExistsExpression); ok {
+			// "NOT EXISTS (...)" is parsed into its own node shape; keep this one distinct
+			return "NOT (" + exprSQL(u.Expr) + ")"
+		}
 		return "NOT " + operandSQL(u.Expr, precNot)
 	case PGPostfixFactorial:
 		return operandSQL(u.Expr, precPrimary) + "!"
